@@ -11,7 +11,10 @@ with tempfile.NamedTemporaryFile("w", suffix=".diff", delete=False) as f:
     f.write(d); name = f.name
 rev = name + ".rev"
 # build the reversed patch with git itself (so that seedtest can apply it forwards)
-subprocess.run(["git", "-C", REPO, "apply", "-R", "--3way", name], check=True)
+if subprocess.run(["git", "-C", REPO, "apply", "-R", "--3way", name]).returncode:
+    subprocess.run(["git", "-C", REPO, "reset", "-q", "--hard", "HEAD"], check=True)
+    os.unlink(name)
+    sys.exit("the reverse of %s does not apply cleanly (later commits touch the same lines): undo it by hand" % commit)
 r = subprocess.run(["git", "-C", REPO, "diff", "HEAD"], capture_output=True, text=True, check=True).stdout
 subprocess.run(["git", "-C", REPO, "reset", "-q", "--hard", "HEAD"], check=True)
 open(rev, "w").write(r)
